@@ -12,7 +12,7 @@ MODNAMES = ['helpers', 'linalg', '_linalg', 'knotvector', 'utilities', '_utiliti
             'BSpline', 'NURBS', 'operations', '_operations', 'compatibility', 'convert', '_convert',
             'construct', 'control_points', 'CPGen', 'fitting', 'multi', 'ray', 'tessellate',
             '_tessellate', 'elements', 'trimming', 'sweeping', 'freeform', 'voxelize', '_voxelize',
-            'exchange', '_exchange', 'shortcuts']
+            'exchange', '_exchange', 'shortcuts', 'exceptions']
 
 _mods = {}
 
